@@ -86,11 +86,9 @@ func (e editor) leaf(from *Selection, to *Selection, m meta.Leafable, new bool, 
 
 	if hnd.Val != nil {
 		// If there is a different choice selected, need to clear it
-		// first if in upsert mode
-		if strategy == editUpsert {
-			if err := e.clearOnDifferentChoiceCase(to, m); err != nil {
-				return err
-			}
+		// first, whatever the strategy: a choice holds data of one case only
+		if err := e.clearOnDifferentChoiceCase(to, m); err != nil {
+			return err
 		}
 		r.Selection = to
 		r.From = from
@@ -184,6 +182,12 @@ func (e editor) node(from *Selection, to *Selection, m meta.HasDataDefinitions, 
 		if toChild != nil {
 			return fmt.Errorf("%w. item '%s' found in '%s'.  ", fc.ConflictError, m.Ident(), fromRequest.Path)
 		}
+
+		// If there is a different choice selected, need to clear it first
+		if err := e.clearOnDifferentChoiceCase(to, m); err != nil {
+			return err
+		}
+
 		if toChild, err = to.selekt(&toRequest); err != nil {
 			return err
 		}
@@ -191,8 +195,7 @@ func (e editor) node(from *Selection, to *Selection, m meta.HasDataDefinitions, 
 		newChild = true
 	case editUpsert:
 
-		// If there is a different choice selected, need to clear it
-		// first if in upsert mode
+		// If there is a different choice selected, need to clear it first
 		if err := e.clearOnDifferentChoiceCase(to, m); err != nil {
 			return err
 		}
